@@ -315,5 +315,6 @@ theorem K_stepCore {c : Ctx} (hc : CtxOK c) (s : Sess) (e : Ev) (he : LinkEv c e
     · exact (sext_sendQueued _).K k1
     · exact (xpeel_setToSend_nil (SExt.refl _)).K k1
   | sessionTime r sm => exact he.elim
+  | resetTime now => exact he.elim
 
 end Qfx.Link
